@@ -111,7 +111,7 @@ func (m *menv) deposit(user neotest.Signer, amount int64, data any, dclass strin
 	r := m.w.Invoke([]world.SignerSpec{world.G(user)}, m.w.GAS, "transfer", from, m.nfs, amount, data)
 	b.Tx(1)
 	ignore := dclass == "ignore-marker"
-	lenOK := dclass == "nil" || dclass == "len0" || dclass == "len20"
+	lenOK := dclass == "nil" || dclass == "len0" || dclass == "len20" || dclass == "len20-marker-prefix"
 	exp := ignore && amount >= 0 || (amount > 0 && amount <= 9000*gasUnit && lenOK)
 	if exp != r.Halted() {
 		b.Violation(fmt.Sprintf("deposit of %d with data %s: expected accepted=%v, got %s %s", amount, dclass, exp, r.State, r.Fault), m.detail(r))
@@ -437,7 +437,9 @@ func runMoney(b *runner.Batch, idx int) {
 	dataPool := []struct {
 		class string
 		v     any
-	}{{"nil", nil}, {"len0", []byte{}}, {"len19", make([]byte, 19)}, {"len20", payee.BytesBE()}, {"len21", make([]byte, 21)}, {"ignore-marker", []byte{0x57, 0x0b}}}
+	}{{"nil", nil}, {"len0", []byte{}}, {"len19", make([]byte, 19)}, {"len20", payee.BytesBE()}, {"len21", make([]byte, 21)}, {"ignore-marker", []byte{0x57, 0x0b}},
+		// data that merely begins like the internal marker: a receiver address, and other lengths (seeded change C19-5)
+		{"len20-marker-prefix", append([]byte{0x57, 0x0b}, payee.BytesBE()[2:]...)}, {"len3-marker-prefix", []byte{0x57, 0x0b, 0x00}}, {"len1-marker-start", []byte{0x57}}, {"len33-marker-prefix", append([]byte{0x57, 0x0b}, make([]byte, 31)...)}}
 	amounts := []int64{0, 1, gasUnit, 9000*gasUnit - 1, 9000 * gasUnit, 9000*gasUnit + 1, 100000 * gasUnit, 12345}
 	// canonical
 	m.deposit(m.users[0], 100*gasUnit, nil, "nil")
@@ -446,6 +448,8 @@ func runMoney(b *runner.Batch, idx int) {
 	m.deposit(m.users[0], 9000*gasUnit+1, nil, "nil")
 	m.deposit(m.users[0], gasUnit, make([]byte, 21), "len21")
 	m.deposit(m.users[0], gasUnit, []byte{0x57, 0x0b}, "ignore-marker")
+	m.deposit(m.users[0], 3*gasUnit, dataPool[6].v, dataPool[6].class)
+	m.deposit(m.users[0], 3*gasUnit, dataPool[7].v, dataPool[7].class)
 	m.withdraw(m.users[0], m.users[0], 10)
 	m.withdraw(m.users[0], m.users[1], 10)
 	m.cheque(payee, 7*gasUnit, true)
